@@ -78,3 +78,48 @@ def safe_repr(x, n=200):
     except Exception as e:  # noqa: BLE001
         r = f"<repr raised {type(e).__name__}>"
     return r if len(r) <= n else r[:n] + "..."
+
+
+def shape_key(t):
+    """Groups terms whose schema objects have the same class and declared props (different
+    parameters): neighbours in this order are what an identity- or structure-keyed cache confuses."""
+    k = t[0]
+    if len(t) > 1 and isinstance(t[1], tuple) and k not in ("list", "dict", "any", "alias", "add", "or",
+                                                          "mkreq", "native", "subst", "fwd"):
+        return (k, tuple(sorted(c[0] for c in t[1])))
+    if k == "list":
+        spec = t[1]
+        return (k, None if spec is None else spec[0], tuple(c[0] for c in t[2]))
+    if k == "dict":
+        return (k, None if t[1] is None else len(t[1]))
+    if k == "any":
+        return (k, None if t[1] is None else "alts")
+    return (k,)
+
+
+def short_lived(terms, shard, nshards, acc, examine, passes=("forward", "backward")):
+    """Address-reuse pass.  The main passes keep a schema alive while the next one is built; here
+    every schema is built, examined and dropped before the next one of the same shape (other
+    parameters) is built, forwards and backwards, in one process - so that later objects reuse the
+    addresses of freed ones and any state a visitor keyed by id() (or kept per instance and never
+    invalidated) meets an object it was not computed for.  `examine(t, s)` records violations."""
+    import gc
+    from .terms import try_build
+    order = sorted(range(len(terms)), key=lambda i: repr(shape_key(terms[i])))
+    lo, hi = shard * len(order) // nshards, (shard + 1) * len(order) // nshards
+    block = [terms[i] for i in order[lo:hi]]
+    freed = {}
+    for direction in passes:
+        seq = block if direction == "forward" else list(reversed(block))
+        for t in seq:
+            s, _ = try_build(t)
+            if s is None:
+                continue
+            acc.count("short_lived_builds")
+            ident = id(s)
+            if ident in freed and freed[ident] != repr(t):
+                acc.count("address_reused_by_a_different_schema")
+            examine(t, s)
+            freed[ident] = repr(t)
+            del s
+            gc.collect(0)
